@@ -17,7 +17,7 @@ import re
 import os.path
 import unicodedata
 from collections.abc import Iterator
-from decimal import Decimal, DecimalException
+from decimal import Decimal, DecimalException, localcontext
 from string import ascii_letters
 from typing import cast, Optional, Union, NoReturn
 from urllib.parse import urlsplit, quote as urllib_quote
@@ -382,7 +382,12 @@ def evaluate__round_half_to_even(self: XPathFunction, context: ta.ContextType = 
         raise self.error('XPTY0004', err)
     except (DecimalException, OverflowError):
         if isinstance(item, Decimal):
-            return Decimal.from_float(round(float(item), precision))  # type: ignore[arg-type]
+            try:
+                with localcontext() as ctx:
+                    ctx.prec = len(item.as_tuple().digits) + 1
+                    return round(item, precision)  # type: ignore[arg-type]
+            except DecimalException:
+                return Decimal.from_float(round(float(item), precision))  # type: ignore[arg-type]
         return round(item, precision)  # type: ignore[arg-type]
 
 
